@@ -41,6 +41,7 @@ def gen_config(rng, idx, faults=True, nclients_max=1, allow_raw=True):
     cfg["pred"] = rng.random() < 0.25       # an earlier session used (and abandoned) the slot first
     # resolvers rotate / shuffle the records of an answer (the protocol numbers them 10, 20, 30 .. for that reason)
     cfg["opt_shuffle"] = rng.getrandbits(16) if rng.random() < 0.5 else None
+    cfg["fdmode"] = rng.choice([None, None, "desc", "high"])      # descriptor numbering is the OS's business
     cfg["rr_order"] = rng.choice(["keep", "rotate", "reverse", "shuffle"]) if cfg["qtype"] in ("MX", "SRV") else "keep"
     return cfg
 
@@ -187,6 +188,7 @@ def run_tunnel(tag, cfg, seed, plan):
     t.ok = False
     t.why = None
     k = sim.k
+    sim.fdmode = cfg.get("fdmode")
     extra = []
     if cfg.get("lb"):
         extra.append("-c")
